@@ -1006,6 +1006,9 @@ class Engine:
     def contract_call(self, e, f, sp, st, ctor_self=None):
         env, back = self.bind_args(f, e, st) if ctor_self is None else ctor_self
         cs = st.clone(); cs.env = dict(env); cs.scope = None; cs.ghost = {}
+        for gt, gn in sp.globals:
+            if ('::' + gn) not in st.env: st.env['::' + gn] = self.fresh_val(gt, 'glob.' + gn, st)
+            cs.env['::' + gn] = st.env['::' + gn]
         for gt, gn in sp.ghosts:
             cs.ghost[gn] = self.fresh_val({'real': 'double', 'double': 'double', 'int': 'int', 'uint': 'uint', 'bool': 'bool'}.get(gt, gt), 'g.' + gn, cs, constrain=False)
             if gn in st.ghost: cs.ghost[gn] = st.ghost[gn]     # ghost arguments are passed by name
@@ -1064,6 +1067,7 @@ class Engine:
             if cl.engines and 'E2' not in cl.engines: continue
             self.assume_clause(cl.expr, cs)
         for gn in gstate: st.env[gn] = cs.env[gn]
+        for gt, gn in sp.globals: st.env['::' + gn] = cs.env['::' + gn]
         st.pc = cs.pc; st.pc_int = cs.pc_int
         for nm, lv in back:
             if cs.env[nm] is not env[nm]:
@@ -1094,6 +1098,7 @@ class Engine:
         if y.k != 'name': raise E2Error('assigns target %s' % SP.show(x))
         path.append(y.name); path.reverse()
         root = path[0]
+        if root not in cs.env and ('::' + root) in cs.env: root = '::' + root
         if root not in cs.env: raise E2Error('assigns target %s does not resolve' % SP.show(x))
         def rec(v, p, nm):
             if not p:
@@ -1115,7 +1120,7 @@ class Engine:
         if z3.is_int(v): return fresh(nm, z3.IntSort())
         return fresh(nm, z3.RealSort())
 
-    def inline_call(self, e, f, sp, st, ctor_self=None, want_lvalue=False):
+    def inline_call(self, e, f, sp, st, ctor_self=None, want_lvalue=False, raw_paths=False):
         env, back = self.bind_args(f, e, st) if ctor_self is None else ctor_self
         sub = st.clone(); sub.env = dict(env); sub.scope = None
         for k, v in st.env.items():
@@ -1139,6 +1144,8 @@ class Engine:
                     self.oblige(p, z3.BoolVal(False), 'call.noexit', 'call %s: callee does not terminate the process' % f.qual)
                 continue
             good.append((p, rv))
+        if raw_paths:
+            return good
         if not good:
             st.assume(z3.BoolVal(False))
             return self.fresh_val(f.ret, 'dead', st) if f.ret not in ('void',) and not f.ret_ref else None
@@ -1296,6 +1303,18 @@ def walk_stmts(ss):
                 for x in walk_stmts(v): yield x
 
 
+def replace_node(e, target, repl):
+    if e is target: return repl
+    if not isinstance(e, IR.E): return e
+    n = IR.E(e.k, e.t)
+    for k, v in e.__dict__.items():
+        if k in ('k', 't'): continue
+        if isinstance(v, IR.E): n.__dict__[k] = replace_node(v, target, repl)
+        elif isinstance(v, list): n.__dict__[k] = [replace_node(a, target, repl) for a in v]
+        else: n.__dict__[k] = v
+    return n
+
+
 def subst_ir(e, m):
     if not isinstance(e, IR.E): return e
     if e.k == 'var' and e.name in m: return m[e.name]
@@ -1338,8 +1357,46 @@ class Verifier(Engine):
                 return False
         return True
 
+    def find_split_call(self, e):
+        names = (self.cur.options.get('split_calls') or '').split() if self.cur is not None else []
+        if not names or not isinstance(e, IR.E): return None
+        if e.k == 'call' and e.kind == 'user' and getattr(e, 'name', None) in names and not any(self.find_split_call(a) for a in e.args):
+            return e
+        for v in e.__dict__.values():
+            if isinstance(v, IR.E) and v.k in IR.EXPR_KINDS:
+                r = self.find_split_call(v)
+                if r is not None: return r
+            elif isinstance(v, list):
+                for a in v:
+                    if isinstance(a, IR.E) and a.k in IR.EXPR_KINDS:
+                        r = self.find_split_call(a)
+                        if r is not None: return r
+        return None
+
     def exec_stmt(self, s, st):
         k = s.k
+        if k in ('decl', 'assign', 'return') and self.cur is not None and self.cur.options.get('split_calls'):
+            ex = s.init if k == 'decl' else (s.rhs if k == 'assign' else s.e)
+            c = self.find_split_call(ex) if ex is not None else None
+            if c is not None:
+                # the callee's paths become caller paths (keeps if-then-else terms out of the queries)
+                f = self.func(c.fn)
+                paths = self.inline_call(c, f, self.spec_of(c.fn), st.clone(), raw_paths=True)
+                out = []
+                self._splitn = getattr(self, '_splitn', 0)
+                for p, rv in paths:
+                    self._splitn += 1
+                    nm = '$split%d' % self._splitn
+                    b = st.clone(); b.pc = list(p.pc); b.pc_int = list(p.pc_int)
+                    b.env[nm] = rv
+                    var = IR.E('var', c.t, name=nm)
+                    s2 = IR.E(s.k, getattr(s, 't', None))
+                    s2.__dict__.update(s.__dict__)
+                    if k == 'decl': s2.init = replace_node(s.init, c, var)
+                    elif k == 'assign': s2.rhs = replace_node(s.rhs, c, var)
+                    else: s2.e = replace_node(s.e, c, var)
+                    out += self.exec_stmt(s2, b)
+                return out
         if k == 'decl' and s.init is not None and s.init.k == 'cond' and s.t in ('double',) + INTS and self.cur is not None and not self.cur.options.get('no_cond_split'):
             # v = c ? a : b  is executed as an if statement (keeps ite terms out of the nonlinear queries)
             self.vartypes[s.name] = s.t
@@ -1689,6 +1746,8 @@ class Verifier(Engine):
                 st.ghost[gn] = self.fresh_val(t, 'g.' + gn, st, constrain=(t != 'int'))
             for gt, gn in fs.ghost_state:
                 st.env[gn] = self.fresh_val({'real': 'double'}.get(gt, gt), 'gs.' + gn, st, constrain=False)
+            for gt, gn in fs.globals:
+                st.env['::' + gn] = self.fresh_val(gt, 'glob.' + gn, st)
             for cl in fs.requires:
                 if cl.engines and 'E2' not in cl.engines: continue
                 self.assume_clause(cl.expr, st)
@@ -1881,6 +1940,9 @@ class Verifier(Engine):
             envs[1]['self'] = Rec(b.name, nf)
         for gt, gn in fs.ghost_state:
             for env in envs: env[gn] = self.fresh_val({'real': 'double'}.get(gt, gt), 'gs.' + gn, st, constrain=False)
+        for gt, gn in fs.globals:
+            gv = self.fresh_val(gt, 'glob.' + gn, st)
+            for env in envs: env['::' + gn] = gv       # run 2 continues with the global as run 1 left it (copied below)
         def combined(e1, e2):
             c = dict(e1)
             for k, v in e2.items(): c[k + '2'] = v
